@@ -158,13 +158,53 @@ def run(ctx):
             continue
         it = its[0]
         n = 0
-        for b in bodies:
-            for blk in b.rpo():
-                for s in b.stmts(blk):
-                    if s["k"] == "assign" and s["rv"]["k"] == "agg" and s["rv"].get("def") == it["path"]:
-                        n += 1
-                        for f in fields:
-                            idx = [i for i, (nm, _) in enumerate(it["fields"]) if nm == f][0]
+        # the field may sit in the struct itself or, after a split of the struct, in a nested struct it owns
+        targets = []
+        for f in fields:
+            if any(nm == f for (nm, _) in it["fields"]):
+                targets.append((it, f))
+            else:
+                for (_, fty) in it["fields"]:
+                    for it2 in prog.items:
+                        if it2["k"] == "struct" and last_seg(it2["path"]) == last_seg(fty.split("<")[0]) and any(nm == f for (nm, _) in it2["fields"]):
+                            targets.append((it2, f))
+        if len(targets) < len(fields) and "session_id" in fields[0]:
+            # renamed as well as moved: find the field by role — the association state the reply Session's server id is copied from
+            sess_paths = {x["path"] for x in prog.items if x["k"] == "struct" and {"client_session_id", "server_session_id", "packet_id"} <= {n_ for (n_, _) in x["fields"]}}
+            role_fields = set()
+            for b in bodies:
+                if not b.defp.startswith("octo_squirrel_server"):
+                    continue
+                for (blk, c, t) in b.calls():
+                    if c.method == "new" and (c.self_def or "") in sess_paths and len(t["args"]) >= 2:
+                        q = op_place(t["args"][1])
+                        if q is not None:
+                            for l_ in b.slice_back([q[0]], stop_call=lambda cc: True)[0] | {q[0]}:
+                                for d_ in b.defs().get(l_, []):
+                                    if d_[0] == "assign" and d_[3]["rv"]["k"] in ("use", "ref"):
+                                        pp = op_place(d_[3]["rv"]["op"]) if d_[3]["rv"]["k"] == "use" else d_[3]["rv"]["p"]
+                                        fl = [e[2] for e in (pp[1] if pp else []) if e[0] == "field" and len(e) > 2 and e[2]]
+                                        if fl and any(e[0] == "deref" for e in pp[1]):
+                                            role_fields.add(tuple(fl[-2:]))
+            for path_ in role_fields:
+                if len(path_) == 2:
+                    parent, leaf = path_
+                    pty = [fty_ for (nm, fty_) in it["fields"] if nm == parent]
+                    for it2 in prog.items:
+                        if pty and it2["k"] == "struct" and last_seg(it2["path"]) == last_seg(pty[0].split("<")[0]) and any(nm == leaf and fty_.strip() == "u64" for (nm, fty_) in it2["fields"]):
+                            targets.append((it2, leaf))
+                elif len(path_) == 1 and any(nm == path_[0] for (nm, _) in it["fields"]):
+                    targets.append((it, path_[0]))
+        if len(targets) < len(fields):
+            ctx.anchor_lost("N1", f"field(s) {fields} of {sfx}")
+            continue
+        for (tit, f) in targets:
+            for b in bodies:
+                for blk in b.rpo():
+                    for s in b.stmts(blk):
+                        if s["k"] == "assign" and s["rv"]["k"] == "agg" and s["rv"].get("def") == tit["path"]:
+                            n += 1
+                            idx = [i for i, (nm, _) in enumerate(tit["fields"]) if nm == f][0]
                             p = op_place(s["rv"]["ops"][idx])
                             ok = p is not None and derives_from_random(prog, b, p[0])
                             ctx.ob("N1", b.defp, f"{last_seg(sfx)}.{f}:from-csprng", loc(s["sp"]), ok,
